@@ -60,10 +60,13 @@ const (
 	JLoad
 	JAsm3
 	JAsm4
-	JAsm1b // the text of JAsm1 under another configuration (the result differs)
+	JAsm1b  // the text of JAsm1 under another configuration (the result differs)
+	JAsm88  // an ICWS'88 assembly (the '88 validation path)
+	JAsmErr // an assembly that fails (undefined symbol: the error path)
+	JAsmLbl // a FOR block with a block label used inside and after it
 )
 
-var jobNames = []string{"assemble(mov 0, -1)", "assemble(EQU + FOR)", "simulate(shared warrior)", "load(MOV.I $ 0, $ 1)", "assemble(labels + EQU chain + ;assert)", "assemble(FOR 0: a pass that emits nothing)", "assemble(mov 0, -1 under CORESIZE 8000)"}
+var jobNames = []string{"assemble(mov 0, -1)", "assemble(EQU + FOR)", "simulate(shared warrior)", "load(MOV.I $ 0, $ 1)", "assemble(labels + EQU chain + ;assert)", "assemble(FOR 0: a pass that emits nothing)", "assemble(mov 0, -1 under CORESIZE 8000)", "assemble(ICWS'88 dwarf)", "assemble(undefined symbol: an error)", "assemble(labelled FOR block)"}
 
 const srcAsm1 = "mov 0, -1\n"
 const srcAsm2 = "n equ 2\ni for n\ndat i, n\nrof\n"
@@ -92,6 +95,12 @@ func RunJob(kind int, cfg g.SimulatorConfig, shared *g.WarriorData) (res string)
 		return render(g.CompileWarrior(strings.NewReader(srcAsm1), cfg))
 	case JAsm1b:
 		return render(g.CompileWarrior(strings.NewReader(srcAsm1), g.ConfigNOP94))
+	case JAsm88:
+		return render(g.CompileWarrior(strings.NewReader("loop add #4, bomb\nmov bomb, @bomb\njmp loop\nbomb dat #0, #0\nend loop\n"), g.ConfigKOTH88))
+	case JAsmErr:
+		return render(g.CompileWarrior(strings.NewReader("a equ b+1\nmov a, nowhere\ndat else1, else2\n"), cfg))
+	case JAsmLbl:
+		return render(g.CompileWarrior(strings.NewReader("top jmp blk\nblk i for 2\nadd #i, blk\nrof\nspl top, blk\n"), cfg))
 	case JAsm2:
 		return render(g.CompileWarrior(strings.NewReader(srcAsm2), cfg))
 	case JAsm3:
@@ -150,7 +159,7 @@ func (s *Scenario) describe() string {
 func Scenarios(thorough bool) [][]int {
 	// single jobs too: one assembly already runs a consumer and one or two
 	// producer goroutines whose interleaving must not change its result
-	out := [][]int{{JAsm4}, {JAsm2}, {JAsm1}, {JAsm4, JAsm1}, {JAsm1, JAsm1b}, {JAsm1b, JAsm1}, {JAsm1, JAsm1}, {JAsm1, JSim}, {JSim, JSim}, {JLoad, JAsm1}, {JLoad, JSim}, {JAsm1, JAsm2}, {JAsm2, JSim}, {JAsm2, JAsm2}, {JAsm3, JAsm1}, {JAsm3, JAsm3}}
+	out := [][]int{{JAsm4}, {JAsm2}, {JAsm1}, {JAsm4, JAsm1}, {JAsm1, JAsm1b}, {JAsm1b, JAsm1}, {JAsm88, JAsm1}, {JAsmErr, JAsm1}, {JAsmErr, JAsmErr}, {JAsmLbl, JAsm2}, {JAsmLbl, JAsmLbl}, {JAsm1, JAsm1}, {JAsm1, JSim}, {JSim, JSim}, {JLoad, JAsm1}, {JLoad, JSim}, {JAsm1, JAsm2}, {JAsm2, JSim}, {JAsm2, JAsm2}, {JAsm3, JAsm1}, {JAsm3, JAsm3}}
 	if thorough {
 		out = append(out, []int{JAsm1, JAsm2, JSim}, []int{JSim, JSim, JAsm1}, []int{JAsm3, JSim, JLoad}, []int{JAsm1, JAsm1, JAsm1})
 	} else {
@@ -173,6 +182,12 @@ func Expected(kind int) (string, bool) {
 		return `ok [] start=0 name=""`, true
 	case JAsm2:
 		return `ok [DAT.F $1 $2 | DAT.F $2 $2] start=0 name=""`, true
+	case JAsm88:
+		return `ok [ADD.AB #4 $3 | MOV.I $2 @2 | JMP.B $7998 $0 | DAT.F #0 #0] start=0 name=""`, true
+	case JAsmErr:
+		return "error", true
+	case JAsmLbl:
+		return `ok [JMP.B $1 $0 | ADD.AB #1 $0 | ADD.AB #2 $79 | SPL.B $77 $78] start=0 name=""`, true
 	}
 	return "", false
 }
